@@ -8,6 +8,7 @@ import (
 	"go/ast"
 	"go/token"
 	"go/types"
+	"math/big"
 	"sort"
 	"strings"
 )
@@ -167,7 +168,7 @@ func (w *World) checkLoopNest(m *scoreModel, ln *loopNest, add func(ok bool, rul
 			add(false, "R10.mod", inst, sd.Call, fmt.Sprintf("the severity distance is computed from %s, which is not an effective (Modified-resolved, default-substituted) value", sd.Val.Name()))
 			continue
 		}
-		dg, okD := ln.Digit[sd.Mx]
+		dg, okD := sd.Dig, sd.HasDig
 		if !okD {
 			add(false, "R04.max", inst, sd.Call, "the maximal value is not a digit of a highest-severity vector")
 			continue
@@ -445,7 +446,58 @@ func (p *Pkg) checkSeverityDistance(fd *ast.FuncDecl, sevVar *types.Var) (bool, 
 		}
 	}
 	if !okScan {
-		return false, "the rank function is not a linear scan returning the position of the value: undecided"
+		// not the textbook scan: tabulate the function on small rows instead
+		if ok, why := rankByTabulation(p, rfd); !ok {
+			return false, "the rank function is neither a linear scan nor provably the position of the value (" + why + "): undecided"
+		}
+		return true, "distance = position(value) − position(max) in sevIdx[metric]; the rank function is proved to return the position by tabulation over rows of up to 5 distinct values"
 	}
 	return true, "distance = position(value) − position(max) in sevIdx[metric], positions counted from 0 by a linear scan"
+}
+
+// rankByTabulation evaluates rank(row, v) for every permutation row of
+// {0..n-1}, n ≤ 5, and every member v, and demands the position of v. The
+// function is executed by the fragment evaluator (bounded loops, exact
+// arithmetic), not by the Go runtime. A function that treats values only
+// through equality with the row members is thereby decided for every row of
+// distinct values of that length; the rows of sevIdx have at most 5 members.
+func rankByTabulation(p *Pkg, fd *ast.FuncDecl) (bool, string) {
+	var perms func(n int) [][]int
+	perms = func(n int) [][]int {
+		if n == 0 {
+			return [][]int{{}}
+		}
+		var out [][]int
+		for _, q := range perms(n - 1) {
+			for i := 0; i <= len(q); i++ {
+				r := append(append(append([]int{}, q[:i]...), n-1), q[i:]...)
+				out = append(out, r)
+			}
+		}
+		return out
+	}
+	for n := 1; n <= 5; n++ {
+		for _, row := range perms(n) {
+			var lv []Val
+			for _, x := range row {
+				lv = append(lv, vInt(int64(x)))
+			}
+			for pos, x := range row {
+				ce := newCEnv(p, nil)
+				ce.loops, ce.ratArith = true, true
+				v, err := ce.callFunc(fd, []Val{{K: VList, T: lv}, vInt(int64(x))}, fd)
+				if err != nil {
+					return false, err.Error()
+				}
+				if v.K != VInt && v.K != VRat {
+					return false, fmt.Sprintf("rank(%v, %d) = %s, want %d", row, x, v, pos)
+				}
+				got := toRat(v)
+				if got.Cmp(big.NewRat(int64(pos), 1)) != 0 {
+					return false, fmt.Sprintf("rank(%v, %d) = %s, want %d", row, x, v, pos)
+				}
+			}
+		}
+	}
+	return true, ""
 }
